@@ -8,6 +8,9 @@ use std::collections::BTreeMap;
 
 #[cfg(test)]
 use self::MockOsRng as OsRng;
+#[cfg(all(enr_verif, not(test)))]
+use super::verif_hooks::SimOsRng as OsRng;
+#[cfg(not(enr_verif))]
 #[cfg(not(test))]
 use rand::rngs::OsRng;
 
